@@ -97,7 +97,7 @@ class SpanActionContext(ActionContext):
                 # a plugin that cannot create its span costs only its own span
                 logging.exception("Failed to create span %s with %s", name, span_processor)
                 continue
-            if span:
+            if span is not None:
                 spans.append(span)
 
         if len(spans) > 0:
